@@ -70,6 +70,9 @@ boost::optional<H5Group> GroupHDF5::findEntityGroup(const nix::Identity &ident) 
         g = boost::make_optional(p->openGroup(needle, false));
     } else if (haveName) {
         g = p->findGroupByAttribute("name", iname);
+    } else {
+        // a uuid-shaped key that names no link may be the NAME of a member
+        g = p->findGroupByAttribute("name", iid);
     }
 
     if (g && haveName && haveId) {
